@@ -103,7 +103,8 @@ check("C12", "fault_enumeration",
       "Project machine: three files whose named targets start present/absent/empty/missing, histories of sync --truth X "
       "through the real CLI, user edits, restarts, one I/O fault or crash at a rehearsed seam call in about half of the "
       "histories followed by seeded user recovery. After every fault-free sync: B1 files parse; B2 every target, parsed by "
-      "cdd's matching parser, equals the truth's parse (names, order, types, defaults, descriptions); B3 truth unchanged; "
+      "cdd's matching parser, equals the truth's parse (names, order, types, defaults, descriptions), and what cdd reads out of a truth the "
+      "simulated user wrote verbatim equals the spec it was written from; B3 truth unchanged; "
       "B4 AST outside the targets unchanged; B5 an identical second and third sync are byte-identical; B6 (always, also "
       "under faults) nothing but the listed files is created or written; B7 after recovery one sync re-establishes B1-B4 "
       "and the next one B5. On flagged plans every seam call of the last sync is faulted once per kind (error, crash, torn "
@@ -111,7 +112,8 @@ check("C12", "fault_enumeration",
       "Common representable interface domain; eight listed known findings delimit regions of B2/B5/B1 by narrow "
       "signatures (existing function/argparse targets are never rewritten; lossy argparse/function default cells; method "
       "targets emitted at top level; appended targets not in normal form / glued to a last line without newline); cdd's "
-      "own parsers are the reader for B2/B3, as the statement words it.",
+      "own parsers are the reader for B2/B3, as the statement words it (the truth's read is cross-checked against the "
+      "harness's own spec); descriptions are compared up to whitespace (word-wrap is a documented re-flow).",
       "deterministic simulation: Hypothesis project histories + rehearsed I/O faults/crashes + recovery and convergence, "
       "reference comparison via the matching parser", "DESIGN.md §3 C12")
 
@@ -161,7 +163,9 @@ check("C16", "exploration",
 check("C17", "exploration",
       "Effect monitor at the simulator's seams under an adversarial workload: payloads (calls, dunder chains, imports, "
       "evaluator-global names, side-effecting module code) in defaults, type strings, prose, decorators, aimed at "
-      "sentinels (files, env var, harness attribute); every parser/emitter and doctrans, sync, sync_properties, gen-from-file "
+      "sentinels (files, env var, harness attribute); every parser/emitter (incl. the JSON-schema parser over $ref URLs and the routes parser over YAML blocks "
+      "with python tags) and doctrans, sync, sync_properties, gen-from-file, with black present or absent (an executable "
+      "named black first on PATH), "
       "run under the audit seam, a third of them again with an injected exception or I/O error so error paths run. "
       "Always: G1 no spawn/network event; G2 no import requested by input-derived code or of a payload module; G3 no "
       "exec of input-derived code containing a call, import or dunder attribute; G4 write-mode opens within the declared "
